@@ -154,7 +154,7 @@ class C09(CheckBase):
         self.kind_w = [self.weights[k] for k in self.kinds]
         self.thorough_runs = self.N_RANDOM_THOROUGH + 2 * self.n_pairs() + 8 * len(self.kinds) + \
             4 * self.N_PREEMPT_POINTS * len(self.kinds) + self.N_PREEMPT_POINTS * len(self.kinds)
-        self.quick_runs = 800 + 3 * len(self.kinds)
+        self.quick_runs = 800 + 4 * len(self.kinds)
         self.wrapped_locks = wrap_module_locks([m for n, m in sorted(sys.modules.items())
                                                 if m is not None and (n == 'geodepy' or n.startswith('geodepy.'))])
         self.sut_codes = sut_code_objects([m for n, m in sorted(sys.modules.items())
@@ -364,7 +364,7 @@ class C09(CheckBase):
         out[i] = rng.choice([None, 'n/a', None])      # immutable wrong-typed values only: what a function does to an argument of a type it does not accept is outside the property
         return out, True
 
-    def _cancel_trace(self, rng, kind_index, frac, kind_of_fault):
+    def _cancel_trace(self, rng, kind_index, frac, kind_of_fault, follow=5):
         """Systematic interruption sweep: a call of every op kind is cancelled (or hit by MemoryError) at the
         line lying `frac` of the way through it; then the same call is made again un-faulted, followed by the
         same kind with other arguments.  Whatever the interrupted call left behind (a half-updated constant,
@@ -379,7 +379,17 @@ class C09(CheckBase):
         ops = [{'id': 0, 'kind': k, 'args': first, 'thread': 0}, {'id': 1, 'kind': k, 'args': a1, 'thread': 0},
                {'id': 2, 'kind': k, 'args': ops_mod.OPS[k][1](rng, self.ctx), 'thread': 0}]
         if kind_of_fault == 'badarg':
-            ops += [{'id': 3 + n, 'kind': k, 'args': ops_mod.OPS[k][1](rng, self.ctx), 'thread': 0} for n in range(5)]
+            if follow > 5:
+                # every argument position in turn gets the wrong type first (each on freshly drawn arguments:
+                # optional arguments select different paths through the function)
+                ops = []
+                for p in range(4):
+                    bad, ok = self._bad_argument(rng, ops_mod.OPS[k][1](rng, self.ctx), which=p)
+                    if ok:
+                        ops.append({'id': len(ops), 'kind': k, 'args': bad, 'thread': 0})
+                ops.append({'id': len(ops), 'kind': k, 'args': a1, 'thread': 0})
+            n0 = len(ops)
+            ops += [{'id': n0 + n, 'kind': k, 'args': ops_mod.OPS[k][1](rng, self.ctx), 'thread': 0} for n in range(follow)]
         else:
             ops[1]['repeat_of'] = 0
         return {'property': 'C09', 'threads': 1, 'ops': ops, 'shared': [],
@@ -395,6 +405,10 @@ class C09(CheckBase):
             return self._preempt_trace(rng, i - K, rng.random(), (i - K) % 4)
         if i < 3 * K:
             return self._cancel_trace(rng, i - 2 * K, rng.random(), ['cancel', 'oom', 'badarg', 'cancel'][i % 4])
+        if i < 4 * K:
+            # a failed call (wrong-typed argument) followed by a long run of valid calls of the same kind:
+            # what an error path leaves behind may show only in a few per cent of the later results
+            return self._cancel_trace(rng, i - 3 * K, rng.random(), 'badarg', follow=40)
         if tier == 'thorough' and i >= self.N_RANDOM_THOROUGH:
             j = i - self.N_RANDOM_THOROUGH
             if j < 2 * self.n_pairs():
